@@ -33,6 +33,7 @@ RANGES = [("a", "c"), ("x", "z"), ("0", "5"), ("b", "y"), ("A", "C"), (",", ".")
           ("A", "z"), ("Z", "a"), ("0", "Z"), ("5", "b"), ("!", "/"), (" ", "~"), ("#", "'"), (")", "+"),
           ("<", "@"), ("Y", "b"), ("*", ","), ("{", "}"), ("$", "&"), (".", "9"), ("-", "0")]
 AWKWARD = list("ab0_ A^-]$.*+?|()[\\{},")
+WHITESPACE = ["\n", "\t", "\r", "\x0b", "\x0c"]      # printable too: members of \s, of negated sets, (not \n) of "."
 PRINTABLE = [c for c in string.printable if c not in "\n\r\t\x0b\x0c"]
 
 # generator feature flags that an open finding switches off
@@ -237,9 +238,9 @@ def sample(draw, node):
     if k in ("lit", "esc"):
         return node[1]
     if k == "dot":
-        return draw(st.sampled_from(["a", " ", ".", "*", "\\", "0"]))
+        return draw(st.sampled_from(["a", " ", ".", "*", "\\", "0", "\x0c", "\t"]))
     if k == "short":
-        return draw(st.sampled_from({"\\d": ["7", "0"], "\\w": ["k", "_", "3"], "\\s": [" ", "\t"]}[node[1]]))
+        return draw(st.sampled_from({"\\d": ["7", "0"], "\\w": ["k", "_", "3"], "\\s": [" ", "\t", "\x0b", "\n", "\x0c", "\r"]}[node[1]]))
     if k == "group":
         return sample(draw, node[1])
     chars = set_chars(node)
@@ -259,6 +260,8 @@ def case_strategy(draw, off):
         ast = replace_dws(ast)
         pattern = render(ast)
     alphabet = sorted(set(AWKWARD) | {c for c in pattern if c in PRINTABLE})
+    # two of the five whitespace characters join the subject alphabet of each case
+    alphabet += draw(st.lists(st.sampled_from(WHITESPACE), min_size=2, max_size=2, unique=True))
     strings = {""}
     for _ in range(6):
         s = sample(draw, ast)
